@@ -43,9 +43,20 @@ type Program struct {
 	cg     *callgraph.Graph
 	chaG   *callgraph.Graph
 
+	// Normalized records what the helper normalisation (package normalize) did before loading.
+	Normalized Normalization
+
 	srcFuncsOnce sync.Once
 	srcFuncs     []*ssa.Function // all functions (incl. anonymous) of module packages
 	fileOf       map[*token.File]*ast.File
+}
+
+// Normalization is the record of the source-level helper inlining applied before the analysis.
+type Normalization struct {
+	Fresh   []string `json:"fresh_functions,omitempty"`
+	Inlined []string `json:"inlined_call_sites,omitempty"`
+	Dropped []string `json:"dropped_declarations,omitempty"`
+	Skipped []string `json:"left_alone,omitempty"`
 }
 
 // Options controls loading.
